@@ -264,7 +264,7 @@ def showWire : Wire → String
 
 def showPkt : Pkt → String
   | .connect => "C"
-  | .publish m q i d => s!"P{m}q{q}i{i}d{if d then 1 else 0}"
+  | .publish m q i d => s!"P{m}q{q}i{if q = 0 then 0 else i}d{if d then 1 else 0}"   -- QoS 0 carries no identifier on the wire
   | .pubrel i m => s!"R{m}i{i}"
   | .subscribe i subs => s!"S{i}:{showSubs subs}"
   | .unsubscribe i ts => s!"U{i}:{String.intercalate ";" (ts.map toHex)}"
@@ -294,7 +294,7 @@ def showWorld (w : World) : String :=
   String.intercalate " " conns ++
     s!" dl={joinOr (w.broker.delivered.map toString) ","} bs={joinOr bs ","} ak={joinOr (w.broker.acked.map showReq) ","}" ++
     s!" oe={if oe.isEmpty then "-" else oe} hd={joinOr hd ","} tt={w.totalTasks} tr={w.totalRetries} qr={if w.stuck then 0 else w.retryQ.length} qt={w.taskQ.length}" ++
-    s!" dials={w.dials} waits={joinOr (w.waits.map toString) ","} phase={showPhase w.phase} ret={ret} rej={w.rejected} stuck={if w.stuck then 1 else 0}"
+    s!" dials={w.dials} ret={ret} rej={w.rejected}"
 
 def planOf (w : World) : String :=
   let writes := (w.conns.map (fun c => c.pkts.length)).foldl (· + ·) 0
@@ -311,7 +311,9 @@ def run (toks : List String) : Option String :=
     let s : Script := { cfg, method, faults, evs }
     let ws := execTrace s
     let final := ws.getLastD (init s)
-    pure (showWorld final ++ " || " ++ String.intercalate ";" (ws.map planOf))
+    let settled := final.taskQ.isEmpty && final.retryQ.isEmpty && !final.stuck && (match final.phase with | .up k => (getConn final k).alive | _ => false)
+    pure (showWorld final ++ " || " ++ String.intercalate ";" (ws.map planOf) ++
+      s!" # waits={joinOr (final.waits.map toString) ","} phase={showPhase final.phase} stuck={if final.stuck then 1 else 0} settled={if settled then 1 else 0}")
   | _ => none
 
 end RetryIO
